@@ -415,4 +415,28 @@ PROPS = {
                  "timeout / match-limit event); distinct by hash of the case description."),
         "assumptions": [],
     },
+    "C09": {
+        "src": "c09", "engine": "rc", "level": "exploration", "config": "tsan", "variant": "tsan",
+        "replay_timeout": 300,
+        "technique": "property-based testing (rapidcheck) of generated multi-threaded scan plans under ThreadSanitizer, each concurrent result compared with its single-threaded reference",
+        "level_text": ("libyara, the shim and the harness are built with ThreadSanitizer. rapidcheck generates a rule set (fixed "
+                       "rules using the regexp VM, pe / elf / hash / math, the four external types and per-scan module data "
+                       "of the `tests` module, plus generated rules), 1-32 threads and for each thread a list of scans - own "
+                       "YR_SCANNER with its own external definitions or the yr_rules_scan_mem/file/fd calls, PE / ELF / text "
+                       "/ empty buffers, memory-mapped file scans, report flags, callback scripts that ABORT or ERROR at the "
+                       "k-th message, callbacks that yield or sleep to perturb the interleaving; all threads start together "
+                       "and each plan is repeated 1-3 times. Oracle: ThreadSanitizer reports nothing (halt_on_error), and "
+                       "every scan's full trace equals the trace of the same scan run alone."),
+        "level_note": ("The harness does not own the thread schedule: schedules are sampled and perturbed, not enumerated; "
+                       "TSan's happens-before analysis flags unsynchronised accesses that were executed even when the "
+                       "harmful interleaving did not happen, but a race on a path no generated scan takes is missed; no "
+                       "liveness claim."),
+        "quick": (40, 50), "thorough": (1500, 600),
+        "floor": 20,
+        "rule": ("case = rule set + thread count + per-thread scan lists, run 1-3 times. Non-trivial: >= 2 threads whose "
+                 "scan intervals overlapped in time (measured with per-thread start/end stamps) and the scans exercised "
+                 ">= 2 of {regexp VM, module, external definitions, memory-mapped file, aborted scan}; distinct by hash of "
+                 "(generated rules, plan)."),
+        "assumptions": [],
+    },
 }
